@@ -3,7 +3,7 @@ open MtxVerif MtxVerif.C01
 
 /-
 op lines (space separated; byte strings hex, empty = `-`, empty list = `_`):
-  reset  <users>                 new Manager{Method: internal, InternalUsers: users}      -> ok <n>
+  reset  <users> [<hexcl> <jexcl>]  new Manager{Method: internal, InternalUsers: users, HTTPExclude, JWTExclude} -> ok <n>
   reload <users>                 ReloadInternalUsers(users)                              -> ok <n>
   auth <action> <path> <user> <pass> <token> <ip> <ask> <cv> <shaU> <shaP> <re> <a2> <usersDigest>  -> ok <user> | err <ask>
   contains <ip:mask> <ip>        conf.IPNetwork.Contains                                 -> 0 | 1
@@ -101,7 +101,9 @@ structure D where
 
 def step (d : D) (op impl : String) : D × DrvOut :=
   match words op with
-  | ["reset", us] | ["reload", us] =>
+  -- `reset <users> <HTTPExclude> <JWTExclude>`: the exclude lists of the other methods are not part of the
+  -- internal decision (exactly per configured users), so the model does not even read them
+  | ["reset", us, _, _] | ["reset", us] | ["reload", us] =>
     match parseUsers us with
     | some usl => ({ users := usl, dig := digest us }, { model := s!"ok {usl.length}" })
     | none => (d, { model := "bad-op" })
